@@ -112,7 +112,11 @@ def run_all(ctx, mix, exh_mix, nontrivial, rule):
             dist[tag] = st
     if not dist:
         return
+    variants = sorted(set(s.get("calloc_overflow_checked") for s in dist.values()))
     ctx.coverage.update({
+        # which rs_calloc the tree under test has (detected by the harness by behaviour; the model follows it):
+        # 0 = pinned code, serves wrapped products (known finding F-ALLOC-1); 1 = overflow -> ENOMEM
+        "calloc_overflow_checked": variants[0] if len(variants) == 1 else variants,
         "evaluations": sum(s["ops_total"] for s in dist.values()),
         "distinct_nontrivial": sum(nontrivial(s) for s in dist.values()),
         "oracle_checks": sum(s["oracle_checks"] for s in dist.values()),
